@@ -27,6 +27,9 @@ pub struct Files {
     pub user: Option<Vec<u8>>,
     pub bigram: Option<(Vec<u8>, Vec<u8>, Vec<u8>)>,
     pub dual: bool,
+    /// connection-id mapping (lmap, rmap) applied after the system dictionary is built and
+    /// before the user lexicon is loaded
+    pub mapping: Option<(Vec<u16>, Vec<u16>)>,
 }
 
 const LEX: &str = "a,1,1,10,fa\nab,2,1,15,fab\nb,1,2,12,\"x,y\",z\nあ,2,2,9,hira\n";
@@ -68,6 +71,7 @@ pub fn base_files(bigram: Option<bool>) -> Files {
             }
         }),
         dual: bigram.unwrap_or(false),
+        mapping: None,
     }
 }
 
@@ -115,6 +119,9 @@ impl Files {
         if let Some(u) = &self.user {
             v["user.csv"] = s(u).into();
         }
+        if let Some((l, r)) = &self.mapping {
+            v["mapping_applied_before_user_csv"] = json!({"lmap": l, "rmap": r});
+        }
         v
     }
 
@@ -125,6 +132,10 @@ impl Files {
                 None => SystemDictionaryBuilder::from_readers(&*self.lex, &*self.matrix, &*self.chardef, &*self.unk),
                 Some((r, l, c)) => SystemDictionaryBuilder::from_readers_with_bigram_info(&*self.lex, &**r, &**l, &**c, &*self.chardef, &*self.unk, self.dual),
             }?;
+            let d = match &self.mapping {
+                None => d,
+                Some((l, r)) => d.map_connection_ids_from_iter(l.iter().cloned(), r.iter().cloned())?,
+            };
             match &self.user {
                 None => Ok(d),
                 Some(u) => d.reset_user_lexicon_from_reader(Some(&**u)),
@@ -613,6 +624,59 @@ fn sweeps(tier: Tier) -> Vec<Sweep> {
             cases,
         });
     }
+    // user CSV loaded after a connection-id mapping, on square and non-square connectors:
+    // every (left, right) id pair up to two beyond the larger dimension
+    {
+        let mx_of = |nr: usize, nl: usize| -> Vec<u8> {
+            let mut s = format!("{nr} {nl}\n");
+            for r in 0..nr {
+                for l in 0..nl {
+                    s.push_str(&format!("{r} {l} {}\n", (r as i32 * 7 + l as i32 * 3) % 11 - 5));
+                }
+            }
+            s.into_bytes()
+        };
+        let side = |n: usize, c: char, w: usize| -> Vec<u8> {
+            let mut s = String::new();
+            for id in 1..n {
+                let cells: Vec<String> = (0..w).map(|p| if (id + p) % 4 == 0 { "*".to_string() } else { format!("{c}{}", (id * (p + 1)) % 3) }).collect();
+                s.push_str(&format!("{id}\t{}\n", cells.join(",")));
+            }
+            s.into_bytes()
+        };
+        let rot = |n: usize| -> Vec<u16> { (1..n).map(|i| if i + 1 < n { (i + 1) as u16 } else { 1 }).collect() };
+        let idm = |n: usize| -> Vec<u16> { (1..n).map(|i| i as u16).collect() };
+        let mut bases: Vec<(String, Files, usize, usize)> = vec![];
+        for (nr, nl) in [(3usize, 3usize), (3, 5), (5, 3), (4, 6)] {
+            let mut f = mx.clone();
+            f.matrix = mx_of(nr, nl);
+            bases.push((format!("matrix{nr}x{nl}"), f, nr, nl));
+            for (nm, is_dual, w) in [("raw", false, 3usize), ("dual", true, 9)] {
+                let mut f = if is_dual { dual.clone() } else { raw.clone() };
+                f.bigram = Some((side(nr, 'R', w), side(nl, 'L', w), b"R0/L0\t5\nR1/L1\t-3\nR2/L2\t9\n/L0\t7\nR1/\t2\n".to_vec()));
+                bases.push((format!("{nm}{nr}x{nl}"), f, nr, nl));
+            }
+        }
+        for (bn, f, nr, nl) in bases {
+            for (mn, mapping) in [("unmapped", None), ("rotated", Some((rot(nl), rot(nr)))), ("left-rotated", Some((rot(nl), idm(nr))))] {
+                let mut f = f.clone();
+                f.mapping = mapping;
+                let m = nr.max(nl) + 2;
+                let mut cases = vec![];
+                for l in 0..m {
+                    for r in 0..m {
+                        cases.push(format!("ab,{l},{r},-5,user-ab\nc,1,1,3,user-c\n").into_bytes());
+                    }
+                }
+                out.push(Sweep {
+                    name: format!("user-after-mapping/{bn}/{mn}"),
+                    kind: Kind::User,
+                    base: f,
+                    cases,
+                });
+            }
+        }
+    }
     // an empty unk.def / a category without an unk entry (K1)
     out.push(Sweep {
         name: "extremes/unk".into(),
@@ -700,6 +764,22 @@ fn check_case(sw: &Sweep, case: &[u8], kf: &[KnownFinding], sentences: &[String]
         return;
     };
     st.count(&format!("accepted_{:?}", sw.kind));
+    if sw.name.starts_with("user-after-mapping/") {
+        // connection ids within the connector: an accepted user row's ids are below the connector's dimensions
+        let (nr, nl) = d.verif_conn_dims();
+        let txt = String::from_utf8_lossy(case).to_string();
+        let cells: Vec<&str> = txt.lines().next().unwrap().split(',').collect();
+        let (l, r): (usize, usize) = (cells[1].parse().unwrap(), cells[2].parse().unwrap());
+        st.count(if sw.base.mapping.is_some() { "user_rows_accepted_after_a_mapping" } else { "user_rows_accepted_without_mapping" });
+        if l >= nl || r >= nr {
+            st.violation(Finding {
+                class: "user-ids-outside-connector-accepted".into(),
+                what: format!("user row with left id {l}, right id {r} accepted on a connector with {nl} left and {nr} right ids [{}]", sw.name),
+                replay: replay(json!({"left_id": l, "right_id": r, "num_left": nl, "num_right": nr})),
+            });
+            return;
+        }
+    }
     // never silently mis-assign character categories
     if let Some(j) = judged {
         match j {
@@ -851,8 +931,8 @@ pub fn run(tier: Tier) -> i32 {
         st.add(&format!("cases_{}", sw.name.split('/').next().unwrap()), sw.cases.len() as u64);
     }
     st.samples.truncate(6);
-    rep.rule = "state = one definition file replaced by a generated content while the other files stay valid: all byte strings up to 6/7 bytes over per-format alphabets (matrix.def, char.def after a valid header, lex.csv, unk.def, user CSV, bigram.right/left/cost), all lines of <= 4/5 tokens from per-format token grammars, all CSV rows from field menus, every single-byte edit / truncation / line deletion, duplication and swap of 3 valid seed files per format (raw and dual connector), and structured extremes; oracle: the builder returns Ok or Err; an accepted char.def inside the reference grammar yields exactly the table the file describes; every accepted dictionary tokenizes all sentences <= 3/4 chars under both ignore_space settings with well-formed tokens; distinct = distinct (sweep, outcome, content length) classes".into();
+    rep.rule = "state = one definition file replaced by a generated content while the other files stay valid: all byte strings up to 6/7 bytes over per-format alphabets (matrix.def, char.def after a valid header, lex.csv, unk.def, user CSV, bigram.right/left/cost), all lines of <= 4/5 tokens from per-format token grammars, all CSV rows from field menus, every single-byte edit / truncation / line deletion, duplication and swap of 3 valid seed files per format (raw and dual connector), structured extremes, and user rows with every (left, right) id pair loaded after a connection-id mapping on square and non-square matrix/raw/dual connectors; oracle: the builder returns Ok or Err; an accepted char.def inside the reference grammar yields exactly the table the file describes; every accepted dictionary tokenizes all sentences <= 3/4 chars under both ignore_space settings with well-formed tokens; distinct = distinct (sweep, outcome, content length) classes".into();
     rep.bounds = json!({"sweeps": sws.iter().map(|s| json!({"name": s.name, "cases": s.cases.len()})).collect::<Vec<_>>()});
     rep.assumptions = vec!["matrix headers use a large value in one dimension at a time (a 65535x65535 matrix would test the allocator)".into(), "mapping iterators are swept in C06".into()];
-    rep.finish(st, &["outcome_Ok", "outcome_Err", "accepted_CharDef", "accepted_Matrix", "accepted_Lex", "accepted_Unk", "accepted_User", "accepted_BigramCost", "chardef_tables_compared", "sentences_on_accepted_dictionaries"])
+    rep.finish(st, &["outcome_Ok", "outcome_Err", "accepted_CharDef", "accepted_Matrix", "accepted_Lex", "accepted_Unk", "accepted_User", "accepted_BigramCost", "user_rows_accepted_after_a_mapping", "chardef_tables_compared", "sentences_on_accepted_dictionaries"])
 }
